@@ -215,10 +215,12 @@ struct Driver {
   void runLine(const std::string &line) {
     std::vector<std::string> tk = split(line);
     if (tk.empty()) return;
-    long inject = -1;
+    long inject = -1, inject2 = -1;   // "!k op": the k-th throwing-capable event throws; "!k+j op": and then the j-th after it
     size_t t0 = 0;
     if (tk[0][0] == '!') {
       inject = std::atol(tk[0].c_str() + 1);
+      size_t plus = tk[0].find('+');
+      if (plus != std::string::npos) inject2 = std::atol(tk[0].c_str() + plus + 1);
       t0 = 1;
     }
     const std::string op = tk[t0];
@@ -267,6 +269,7 @@ struct Driver {
       G().throwingEvents = 0;
       G().lastInjected.clear();
       G().countdown = inject;
+      G().countdown2 = inject2;
     };
     R &r = ref[a];
     const long sz = alive[a] ? static_cast<long>(v(a).size()) : 0;
@@ -777,6 +780,7 @@ struct Driver {
 #undef FITS
 #undef NEED_ALIVE
     G().countdown = -1;
+    G().countdown2 = -1;
     Ev ev1 = evNow();
     long throwingEvents = G().throwingEvents;
     if (tmp) {
